@@ -512,6 +512,49 @@ int clock_gettime(clockid_t clk, struct timespec* ts) {
     return 0;
 }
 
+// ---- libc functions that return a pointer into static storage (gmtime, localtime, ctime, asctime, strtok state):
+// calling them from several threads is a data race that no synchronisation operation reveals. The window is between the call
+// (which fills the static buffer) and the caller's reads of the result: a scheduling point right after the call lets another
+// thread run - and call the same function - inside that window, so the stale read happens for real and shows in the oracle.
+#include <time.h>
+static void point_after_static_result(int tag) {
+    if (!managed()) return;
+    Th* t = cur;
+    progress();
+    t->st = S_AT_POINT; t->obj = tag;
+    reschedule(t);
+}
+struct tm* gmtime(const time_t* tp) {
+    static struct tm* (*real)(const time_t*) = reinterpret_cast<struct tm* (*)(const time_t*)>(dlsym(RTLD_NEXT, "gmtime"));
+    struct tm* r = real(tp);
+    point_after_static_result(-7);
+    return r;
+}
+struct tm* localtime(const time_t* tp) {
+    static struct tm* (*real)(const time_t*) = reinterpret_cast<struct tm* (*)(const time_t*)>(dlsym(RTLD_NEXT, "localtime"));
+    struct tm* r = real(tp);
+    point_after_static_result(-7);
+    return r;
+}
+char* ctime(const time_t* tp) {
+    static char* (*real)(const time_t*) = reinterpret_cast<char* (*)(const time_t*)>(dlsym(RTLD_NEXT, "ctime"));
+    char* r = real(tp);
+    point_after_static_result(-7);
+    return r;
+}
+char* asctime(const struct tm* tmv) {
+    static char* (*real)(const struct tm*) = reinterpret_cast<char* (*)(const struct tm*)>(dlsym(RTLD_NEXT, "asctime"));
+    char* r = real(tmv);
+    point_after_static_result(-7);
+    return r;
+}
+char* strtok(char* str, const char* delim) {
+    static char* (*real)(char*, const char*) = reinterpret_cast<char* (*)(char*, const char*)>(dlsym(RTLD_NEXT, "strtok"));
+    char* r = real(str, delim);
+    point_after_static_result(-7);
+    return r;
+}
+
 void osmium_verif_sched_point(const char* tag) {
     if (!managed()) return;
     Th* t = cur;
